@@ -1,6 +1,8 @@
 #!/bin/sh
 # runs every property's thorough tier from the directory this script lives in (used with `vp run`)
+# optional argument: the seed (default: VERIF_SEED from the environment, else 1)
 cd "$(dirname "$0")"
+[ -n "$1" ] && export VERIF_SEED=$1
 export VERIF_DIR=$PWD CARGO_TARGET_DIR=$PWD/target CARGO_NET_OFFLINE=true
 (cd sim && cargo build --release --offline 2>&1 | tail -2)
 for p in C01 C02 C03 C04 C05 C06 C07 C08 C09 C10 C11 C12 C13 C14 C15 C16 C17 C18 C20; do
